@@ -561,6 +561,23 @@ def corpus():
     for cls in RET_CLASSES:
         cs.append(retention_case(cls, 10))
     over = retention_case('oversize', 3)['reqs']
+    # a status code http.client does not list: custom phrase first, number later, and the reverse order
+    # (seeded change: the status setter memoises such lines in the module-level table)
+    def st_case(status, how):
+        if how == 'mut':
+            h = dict(muts=[dict(m='status', v=status)], res=dict(k='ret', o=hello))
+        elif how == 'raise':
+            h = dict(muts=[], res=dict(k='raise_http', err=True,
+                                       r=dict(status=status, headers=[], cookies=[], body=dict(k='str', s='x'))))
+        else:
+            h = dict(muts=[], res=dict(k='ret', o=dict(k='http', err=False, r=dict(status=status, headers=[], cookies=[],
+                                                                                   body=hello))))
+        return dict(plain(hello), routing=dict(k='ok', rhooks=[], h=h))
+    for a, b in (('520 Origin Unreachable', 520), (520, '520 Origin Unreachable'), ('999 Nine', 999)):
+        for how1 in ('mut', 'raise'):
+            for how2 in ('mut', 'raise', 'resp'):
+                cs.append(dict(kind='history', peek=False, eh=[],
+                               reqs=[_req(0, st_case(a, how1)), _req(1, st_case(b, how2)), _req(2, st_case(a, how2))]))
     cs.append(dict(kind='rule', reset=False, ids=[1, 2, 3]))
     cs.append(dict(kind='rule', reset=True, ids=[1, 2, 3]))
     cs.append(dict(kind='history', peek=True, eh=[], reqs=[over[0], _req(1, cookie), dict(retention_case('badchunk', 3)['reqs'][2]),
